@@ -129,6 +129,9 @@ type v07Cfg struct {
 	// to the session of the datagram the receive loop was handed last (feeding is one goroutine).
 	shared      bool
 	denyRewrite []bool // denyRewrite[s]: the policy rejects the address the hook rewrites session s to
+	// phase: virtual time that passes before the manager starts, so that the sweeper's ticks (and every
+	// later instant) are not aligned to whole wall-clock seconds (the bubble's clock starts at a whole second)
+	phase time.Duration
 }
 
 func (c v07Cfg) addr(s, dest int) string {
@@ -145,7 +148,7 @@ func (c v07Cfg) String() string {
 			nd++
 		}
 	}
-	return fmt.Sprintf("idle=%v limit=%d hook=%d sids=%v denied=%d/%d sharedDestinations=%v rewriteTargetDenied=%v randseed=%d", c.idle, c.limit, c.hookMode, c.sids, nd, len(c.deny), c.shared, c.denyRewrite, c.randSeed)
+	return fmt.Sprintf("idle=%v limit=%d hook=%d sids=%v denied=%d/%d sharedDestinations=%v rewriteTargetDenied=%v startPhase=%v randseed=%d", c.idle, c.limit, c.hookMode, c.sids, nd, len(c.deny), c.shared, c.denyRewrite, c.phase, c.randSeed)
 }
 
 func v07Addr(s, dest int) string    { return fmt.Sprintf("s%d.d%d.test:%d", s, dest, 1000+dest%50000) }
@@ -247,10 +250,11 @@ const (
 	v07EvSockClose
 	v07EvLogClose
 	v07EvLogCloseRet
+	v07EvSendDropped
 )
 
 var v07EvNames = [...]string{"RecvWait", "Recv", "RecvErr", "Hook", "LogNew", "UDP", "CheckUDP", "CheckUDP-parked", "WriteTo", "WriteTo-err", "WriteTo-closed", "WriteTo-parked",
-	"ReadFrom", "ReadFrom-err", "ReadFrom-closed", "Send", "Send-toolarge", "Send-err", "Send-parked", "SockClose", "LogClose", "LogClose-return"}
+	"ReadFrom", "ReadFrom-err", "ReadFrom-closed", "Send", "Send-toolarge", "Send-err", "Send-parked", "SockClose", "LogClose", "LogClose-return", "Send-dropped(does not fit the caller's buffer)"}
 
 type v07Ev struct {
 	k     v07EvKind
@@ -289,7 +293,7 @@ func (e v07Ev) String() string {
 		s += fmt.Sprintf(" sock%d pkt%d from %s", e.sock, e.pkt, e.addr)
 	case v07EvReadErr, v07EvReadClosed, v07EvSockClose:
 		s += fmt.Sprintf(" sock%d", e.sock)
-	case v07EvSendOK, v07EvSendTooLarge, v07EvSendErr, v07EvSendPark:
+	case v07EvSendOK, v07EvSendTooLarge, v07EvSendErr, v07EvSendPark, v07EvSendDropped:
 		s += fmt.Sprintf(" sid=%d pid=%d frag=%d/%d from %s %dB (pkt tag %d)", e.sid, e.pid, e.fid, e.fcnt, e.addr, len(e.data), e.pkt)
 	case v07EvLogClose:
 		s += fmt.Sprintf(" sid=%d err=%v parked=%v", e.sid, !e.ok, e.park)
@@ -309,6 +313,7 @@ type v07InMsg struct {
 	full    []byte // payload of the whole client message
 	data    []byte // payload carried by this datagram
 	tainted bool
+	mixed   bool // the fragments of this client message carry different destination addresses
 }
 
 type v07Pkt struct {
@@ -412,6 +417,13 @@ func (io *v07IO) SendMessage(buf []byte, m *protocol.UDPMessage) error {
 		e.loop = &buf[0]
 	}
 	h.mu.Lock()
+	if v07WireSize(len(m.Addr), len(data)) > len(buf) {
+		// what the real udpIOImpl does first: Serialize into the caller's buffer; no room = silent drop
+		e.k = v07EvSendDropped
+		h.logLocked(e)
+		h.mu.Unlock()
+		return nil
+	}
 	if v07WireSize(len(m.Addr), len(data)) > h.cfg.limit {
 		e.k = v07EvSendTooLarge
 		h.logLocked(e)
@@ -687,6 +699,8 @@ type v07Feed struct {
 	hadSock  bool
 	window   bool
 	hookErr  bool
+	hookIn   string
+	hookOut  string
 	dialSeen bool
 	dialOK   bool
 	writes   int
@@ -722,6 +736,7 @@ type v07Model struct {
 	fragAddr map[v07FragKey]string
 
 	// statistics for the NT rule / evidence
+	nMixedForwarded                                                                              int
 	nExpired, nFault, nReuse, nLateRelease, nForwarded, nDenied, nReplies, nFragReplies, nWindow int
 	sessionsSeen                                                                                 map[uint32]bool
 	maxCheckBurst                                                                                int
@@ -818,6 +833,14 @@ func (m *v07Model) finalizeFeed() string {
 		return ""
 	}
 	f.done = true
+	if f.msg.mixed && !f.window {
+		if f.writes == 1 {
+			f.inst.fwd = append(f.inst.fwd, f.at)
+			m.nForwarded++
+			m.nMixedForwarded++
+		}
+		return "" // no exact-count expectation for a message without one agreed destination
+	}
 	if f.window || f.msg.tainted {
 		return ""
 	}
@@ -936,10 +959,13 @@ func (m *v07Model) step(e v07Ev) string {
 		m.feed = f
 	case v07EvHook:
 		if m.feed != nil && !m.feed.done {
+			m.feed.hookIn = e.addr
 			if !e.ok {
 				m.feed.hookErr = true
 				m.feed.inst.fault = true
 				m.nFault++
+			} else {
+				m.feed.hookOut = e.addr2
 			}
 		}
 	case v07EvLogNew:
@@ -978,9 +1004,18 @@ func (m *v07Model) step(e v07Ev) string {
 		in.sock = e.sock
 		m.bySock[e.sock] = in
 		if f != nil && !f.done && f.msg.sid == sid {
-			in.orig = f.msg.addr
-			if e.addr != f.msg.addr {
-				in.override = e.addr
+			// the session is rewritten iff the hook changed the address and that address was dialed
+			switch {
+			case f.hookOut != "":
+				in.orig = f.hookIn
+				if f.hookOut != f.hookIn && e.addr == f.hookOut {
+					in.override = e.addr
+				}
+			default:
+				in.orig = f.msg.addr
+				if e.addr != f.msg.addr && !f.msg.mixed {
+					in.override = e.addr
+				}
 			}
 		}
 	case v07EvCheck:
@@ -1026,8 +1061,13 @@ func (m *v07Model) step(e v07Ev) string {
 			if e.addr != in.override {
 				return fmt.Sprintf("hook: session %d was rewritten to %q but dg#%d was sent to %q", f.msg.sid, in.override, f.msg.n, e.addr)
 			}
+			if !m.cfg.allowed(e.addr) {
+				return fmt.Sprintf("dg#%d was forwarded to the hook-rewritten destination %q, which the outbound policy rejects", f.msg.n, e.addr)
+			}
 		} else {
-			if e.addr != f.msg.addr {
+			// a message whose fragments disagree on the address has no single "own" destination:
+			// whichever one the server picks must pass the policy (checked below)
+			if e.addr != f.msg.addr && !f.msg.mixed {
 				return fmt.Sprintf("dg#%d is addressed to %q but was sent to %q (session not rewritten by the hook)", f.msg.n, f.msg.addr, e.addr)
 			}
 			if !m.cfg.allowed(e.addr) {
@@ -1326,12 +1366,24 @@ func v07Execute(cfg v07Cfg, ops []v07Op) (res *v07Result, h *v07H, abandon bool)
 		sendFail: map[uint32]bool{}, parkSendArmed: map[uint32]bool{}, logArm: map[uint32]bool{}}
 	m := v07NewModel(cfg, h)
 	res = &v07Result{m: m}
+	if cfg.phase > 0 {
+		time.Sleep(cfg.phase)
+	}
 	sm := newUDPSessionManager(&v07IO{h}, &v07Logger{h}, cfg.idle)
 	runDone := make(chan error, 1)
 	go func() { runDone <- sm.Run() }()
 	synctest.Wait()
 
 	fullOf := map[int][]byte{}
+	destsOf := map[int]map[int]bool{}
+	for _, op := range ops {
+		if op.kind == v07OpData {
+			if destsOf[op.msgSeq] == nil {
+				destsOf[op.msgSeq] = map[int]bool{}
+			}
+			destsOf[op.msgSeq][op.dest] = true
+		}
+	}
 	curSock := func(s int) *v07Sock { // latest socket opened for the session index
 		h.mu.Lock()
 		defer h.mu.Unlock()
@@ -1368,7 +1420,7 @@ func v07Execute(cfg v07Cfg, ops []v07Op) (res *v07Result, h *v07H, abandon bool)
 				full = v07Payload('D', op.msgSeq, op.total)
 				fullOf[op.msgSeq] = full
 			}
-			msg := &v07InMsg{op: op, sid: cfg.sids[op.s], addr: cfg.addr(op.s, op.dest), full: full, data: full[op.lo:op.hi]}
+			msg := &v07InMsg{op: op, sid: cfg.sids[op.s], addr: cfg.addr(op.s, op.dest), full: full, data: full[op.lo:op.hi], mixed: len(destsOf[op.msgSeq]) > 1}
 			h.mu.Lock()
 			msg.n = len(h.msgs)
 			h.msgs = append(h.msgs, msg)
@@ -1384,6 +1436,10 @@ func v07Execute(cfg v07Cfg, ops []v07Op) (res *v07Result, h *v07H, abandon bool)
 			h.mu.Lock()
 			p := &v07Pkt{n: len(h.pkts), sock: s.id, from: cfg.addr(op.s, op.dest)}
 			p.data = v07Payload('R', p.n, op.size)
+			// a datagram that does not fit the server's 4096-byte buffers may be dropped, never altered
+			if v07WireSize(len(p.from), len(p.data)) > 4096 {
+				p.mayLose = true
+			}
 			// what cannot be fragmented into <= 255 pieces is legitimately dropped (C05)
 			if sz := v07WireSize(len(p.from), len(p.data)); sz > cfg.limit {
 				fromLen := len(p.from)
